@@ -20,4 +20,12 @@ CLAIMED = {
    text="Generated nested task trees with DAGs over leaves and containers (own/inherited/precedes edges, relative and absolute references, min/h/d/w gaps, on-start, sub-slot efforts, dated containers, forward projects and backward projects shaped as the statement allows); every edge re-derived from the model is checked against the reported dates of scheduled, unpinned leaf tasks.",
    note="Trusts the renderer's reference spelling (true targets are kept in the model); unscheduled tasks, gaplength, on-start edges in backward mode and mode mixing are not judged (statement). Cyclic inputs are excluded by construction at leaf level.",
    technique="property-based testing (Hypothesis) with edges re-derived from the generating model"),
+ "C05": dict(
+   text="Generated limits (dailymax/weeklymax on resources, groups, tasks, task groups, resource-qualified; values that are not whole slots) in projects of 2 days to 3 years around 53-week ISO year ends, ASAP and ALAP; booked seconds are re-aggregated per calendar day / ISO week from the usage ledger over the whole scheduled horizon and compared with every limit of the model.",
+   note="Trusts the ledger and UTC day/ISO-week arithmetic of the Python standard library; a resource-qualified task limit is judged per listed resource (TaskJuggler semantics).",
+   technique="property-based testing (Hypothesis) with an aggregation oracle over the usage ledger"),
+ "C10": dict(
+   text="Generated task trees up to six levels deep with schedulable and unschedulable leaves (never-working resource, cycles, group allocations, unresolved references), dated containers, containers carrying work attributes and resource groups; the container flags and dates are recomputed bottom-up from the reported leaf values and the ledger is scanned for container tasks and group resources.",
+   note="Leaf values are taken as reported (their correctness is the business of C03/C06/C07); trusts the renderer.",
+   technique="property-based testing (Hypothesis) with a bottom-up roll-up oracle"),
 }
